@@ -31,6 +31,8 @@ MORE_ADVERSARIAL = [
     "x = 'a_pos=3:1-:2'\nfor i in x:\n    pass\nelse:\n    pass\n",
     "s = '''\n/body/1/_type=For\n/body/1/_pos=1:1-\n/body/1/loopelse/_length=1\n/body/1/loopelse/1/_pos=2:1-3-1-:\n'''\n",
     "x = -b\"it's\"\n",
+    # ordinary comments that look like PEP 484 type comments, where PEP 484 allows none
+    "size = 1\n# type: 1 for a square, 2 for a triangle\nif size:  # type: the size\n    print(size)  # type: ignore\n",
 ]
 
 
@@ -170,7 +172,14 @@ class E2E:
             return "skip"
         if isinstance(labels, str):
             return {"exception": labels}
-        if any(n.startswith("ast_construction:") for n, _ in labels):
+        errs = [n for n, _ in labels if n.startswith("ast_construction:")]
+        if errs:
+            # the stored source parses here (`expected` did not raise). An empty program, a literal too long for repr, a
+            # tree too deep are documented refusals; a *syntax error* on a text that CPython parses is not: no tag of
+            # that program matches its syntax tree any more
+            body = ast.parse(stored).body
+            if errs == ["ast_construction:SyntaxError"] or (errs == ["ast_construction:EmptyProgramError"] and body):
+                return {"missing": sorted(exp.elements())[:5], "extra": [], "reported_instead": errs}
             return "skip"
         got = self.got_from_labels(labels, exp)
         if got == exp:
@@ -193,6 +202,16 @@ class E2E:
         except Exception:
             tree = ast.parse("pass")
         feats = {f for f in fe.quirk_features(tree) if f in SIG}
+        try:
+            # a failure that a plain round trip through the tree repairs depends on the comments or on the layout: no
+            # recorded finding (they are all about the tree) explains it, and the tree-level tools would lose it
+            if not self.fails(ast.unparse(ast.parse(src)) + "\n"):
+                ctx.dist("novel-failure (depends on comments or layout)")
+                if len(self.novel) < 4:
+                    self.novel.append((stream, name, src, why))
+                return
+        except Exception:
+            pass
         try:
             clean = neutralise(src, set())
             still = self.fails(clean)
@@ -244,6 +263,7 @@ class E2E:
             })
         for stream, name, src, why in self.novel:
             small = fe.shrink(src, self.fails, budget=120)
+            small = line_shrink(small, self.fails)
             stored, labels = self.direct(small)
             ctx.violations.append({
                 "what": "`node:` labels differ from the positioned nodes of the stored source (not explained by a recorded finding)",
@@ -260,11 +280,33 @@ def decorate(rng, src):
     for l in lines:
         if l.strip() and not l.rstrip().endswith((":", ",", "(", "[", "{", '"""', "'''")) and rng.random() < 0.12 \
                 and l.count('"') % 2 == 0 and l.count("'") % 2 == 0 and "#" not in l and '"""' not in l:
-            l = l + rng.choice(["  # a comment", "  # paroxython: foo", "  # paroxython: +bar:baz"])
+            l = l + rng.choice(["  # a comment", "  # paroxython: foo", "  # paroxython: +bar:baz", "  # type: the size",
+                                "  # type: ignore"])
         out.append(l)
         if rng.random() < 0.08:
-            out.append(rng.choice(["", "    ", "# standalone comment"]))
+            # (comments that merely look like PEP 484 type comments are ordinary comments for `ast.parse(source)`)
+            out.append(rng.choice(["", "    ", "# standalone comment", "# type: 1 for a square, 2 for a triangle",
+                                   "# type: int"]))
     return "\n".join(out)
+
+
+def line_shrink(src, fails, budget=150):
+    """Delete lines one at a time while the program keeps failing (for failures that depend on comments or layout,
+    which the AST-level shrinker cannot keep)."""
+    lines = src.split("\n")
+    i = 0
+    while i < len(lines) and budget > 0 and len(lines) > 1:
+        cand = lines[:i] + lines[i + 1:]
+        budget -= 1
+        try:
+            ok = fails("\n".join(cand))
+        except Exception:
+            ok = False
+        if ok:
+            lines = cand
+        else:
+            i += 1
+    return "\n".join(lines)
 
 
 def parse_tsv(text):
